@@ -26,9 +26,13 @@ fn classify<T, E>(r: Result<Result<T, E>, String>) -> &'static str {
 }
 
 /// returns (outcome of the call / construction, outcome of draining)
-fn run_api(ac: &AhoCorasick, api: &str, hay: &str, an: bool) -> (&'static str, &'static str) {
+fn run_api(ac: &AhoCorasick, api: &str, hay: &str, an: bool, early: bool, sub: bool) -> (&'static str, &'static str) {
     let hb = hay.as_bytes();
-    let input = || Input::new(hb).anchored(anch(an));
+    // the outcome may depend on neither the earliest flag nor the span of the input
+    let input = || {
+        let i = Input::new(hb).anchored(anch(an)).earliest(early);
+        if sub && hb.len() >= 2 { i.span(1..hb.len() - 1) } else { i }
+    };
     let n = ac.patterns_len();
     let reps: Vec<String> = (0..n).map(|i| format!("<{}>", i)).collect();
     let repb: Vec<Vec<u8>> = reps.iter().map(|s| s.as_bytes().to_vec()).collect();
@@ -231,11 +235,13 @@ pub fn run(out_prefix: &str) -> usize {
                             let ac = b.build(pats.iter()).expect("matrix build");
                             for hay in hays {
                                 for api in APIS {
-                                    let (res, later) = run_api(&ac, api, hay, an);
-                                    out.put(0, &json!({"ev":"cell","api":api,"mk":mk,"sk":sk,
-                                        "an":an,"empty":empty,"kind":kind,"shape":si,
-                                        "hay":hay,"res":res,"later":later}));
-                                    cells += 1;
+                                    for (early, sub) in [(false, false), (true, false), (false, true)] {
+                                        let (res, later) = run_api(&ac, api, hay, an, early, sub);
+                                        out.put(0, &json!({"ev":"cell","api":api,"mk":mk,"sk":sk,
+                                            "an":an,"empty":empty,"kind":kind,"shape":si,
+                                            "hay":hay,"early":early,"sub":sub,"res":res,"later":later}));
+                                        cells += 1;
+                                    }
                                 }
                             }
                         }
